@@ -60,10 +60,13 @@ One(d) ==
    LET g == GraphOf(<<d>>, {}) IN
    /\ \A sh \in Variants(d) : P(CaseOf(g, Supply({"x1"}, [nm \in {"x1"} |-> sh]), <<"one_input", "rank" \o ToString(Len(d))>>))
    /\ P(CaseOf(g, <<>>, <<"one_input", "missing">>))
+   /\ P(CaseOf(g, [nm \in {"x1"} |-> Nil], <<"one_input", "nil_tensor">>))
+   /\ P(CaseOf(g, [nm \in {"x1", "extra"} |-> IF nm = "extra" THEN Nil ELSE Iota("f32", ConformShape(d), 0)], <<"one_input", "extra_name_nil">>))
    /\ P(CaseOf(g, Supply({"other"}, [nm \in {"other"} |-> ConformShape(d)]), <<"one_input", "wrong_name">>))
    /\ P(CaseOf(g, Supply({"x1", "extra"}, [nm \in {"x1", "extra"} |-> ConformShape(d)]), <<"one_input", "extra_name">>))
    /\ LET gs == GraphOf(<<d>>, {1}) IN
       /\ P(CaseOf(gs, <<>>, <<"shadowed", "not_supplied">>))
+      /\ P(CaseOf(gs, [nm \in {"x1"} |-> Nil], <<"shadowed", "nil_tensor">>))
       /\ P(CaseOf(gs, Supply({"x1"}, [nm \in {"x1"} |-> ConformShape(d)]), <<"shadowed", "supplied">>))
       /\ P(CaseOf(gs, Supply({"x1"}, [nm \in {"x1"} |-> ConformShape(d) \o <<2>>]), <<"shadowed", "supplied_other_rank">>))
 Many(dims) ==
@@ -72,6 +75,7 @@ Many(dims) ==
    /\ P(CaseOf(g, Supply(names, good), <<"many_inputs", "all_good">>))
    /\ \A i \in 1..n :
          /\ P(CaseOf(g, Supply(names \ {InName(i)}, good), <<"many_inputs", "one_missing">>))
+         /\ P(CaseOf(g, [Supply(names, good) EXCEPT ![InName(i)] = Nil], <<"many_inputs", "one_nil_tensor">>))
          /\ \A sh \in {[ConformShape(dims[i]) EXCEPT ![Len(dims[i])] = 7], ConformShape(dims[i]) \o <<1>>} :
                /\ P(CaseOf(g, Supply(names, [good EXCEPT ![InName(i)] = sh]), <<"many_inputs", "one_varied">>))
                /\ P(CaseAfterEmptyCall(g, Supply(names, [good EXCEPT ![InName(i)] = sh]), <<"many_inputs", "one_varied">>))
@@ -88,7 +92,9 @@ Many(dims) ==
                /\ \A sh \in {[ConformShape(dims[i]) EXCEPT ![Len(dims[i])] = 7], ConformShape(dims[i]) \o <<1>>} :
                      P(CaseOf(gs, Supply(rest, [good EXCEPT ![InName(i)] = sh]), <<"many_inputs", "one_shadowed", "one_varied">>))
 
+DenotedKinds == {Denoted(DFix(2), "DATA_BATCH"), Denoted(DFix(3), "DATA_CHANNEL"), Denoted(DSym, "DATA_BATCH"), Denoted(DNone, "DATA_FEATURE"), DFix(2)}
 Init == \/ st \in [fam : {"one"}, d : UNION {[1..r -> DimKinds] : r \in 1..MaxRank}, done : {FALSE}]
+        \/ st \in [fam : {"one"}, d : UNION {[1..r -> DenotedKinds] : r \in 1..2}, done : {FALSE}]
         \/ \E n \in 2..MaxInputs : st \in [fam : {"many"}, dims : [1..n -> UNION {[1..r -> {DFix(2), DSym, DNone}] : r \in 1..2}], done : {FALSE}]
 Emit == /\ ~st.done
         /\ CASE st.fam = "one" -> One(st.d) [] st.fam = "many" -> Many(st.dims)
